@@ -58,6 +58,8 @@ def check_disc(rep: Report, cases, ctx, disc, rng, tag="", shapes=None):
     rep.feat("head_not_lowest_chains", info["head_not_lowest"])
     rep.feat("windows_ending_on_cluster_boundary", info["exact_fill"])
     rep.feat("fat_version_%d" % disc.version_flag)
+    if info.get("shared_files"):
+        rep.feat("samples_sharing_a_data_file")
     for smp in disc.samples.values():
         rep.feat("loop_mode_%d" % smp.mode)
         rep.feat("freq_code_%d" % smp.freq)
@@ -112,6 +114,14 @@ def targeted_discs(rng):
         d4 = G.Disc([G.Volume(f"Vol{k}", v) for k, v in enumerate(vols)], perfs, {0: G.Patch("Q0", [0]), 1: G.Patch("Q1", [1])},
                     {0: G.Partial("R0", [0, 1, None, None]), 1: G.Partial("R1", [2, None, None, None])}, smp)
         out.append((tag, d4))
+    # several samples in ONE data file (same FAT entry, different leading-cluster offsets), referenced so that the
+    # ones deeper in the file are parsed first (S140: a cluster list cached per FAT entry)
+    smp = {0: G.Sample("FileA", W(rng, 5000), mode=0), 1: G.Sample("FileB", W(rng, 9300), mode=2, after=0), 2: G.Sample("FileC", W(rng, 300), mode=5, after=0),
+           3: G.Sample("Alone", W(rng, 4608), mode=1)}
+    d5 = G.Disc([G.Volume("VOL", [0, 1])], {0: G.Performance("Deep first", [0]), 1: G.Performance("Head first", [1])},
+                {0: G.Patch("Q0", [0, 1]), 1: G.Patch("Q1", [2])},
+                {0: G.Partial("R0", [2, 1, None, None]), 1: G.Partial("R1", [0, 3, None, None]), 2: G.Partial("R2", [0, 2, 1, None])}, smp)
+    out.append(("shared-data-file", d5))
     return out
 
 
@@ -119,7 +129,7 @@ def run(ctx, rep: Report, deep: bool = False):
     rng = ctx.rng
     rep.rule = (
         "logical discs -> independent writer (gen_roland) -> real `export`/`ls` and the Lean model of the parser: volumes x performances x patches x partials x <=4 sample slots, shared and orphaned entries, "
-        "chain shape in {contiguous, reversed, random, head-not-lowest}, cluster_top 0-2, the 7 loop modes, the 6 frequency codes, FAT version flag 1/2, windows ending exactly on k*9216; "
+        "chain shape in {contiguous, reversed, random, head-not-lowest}, cluster_top 0-2, several samples in one data file (one FAT entry, different leading-cluster offsets), the 7 loop modes, the 6 frequency codes, FAT version flag 1/2, windows ending exactly on k*9216; "
         "oracle: file set and PCM computed from the logical model; distinct = distinct image; non-trivial = image with >= 1 sample"
     )
     cases = []
@@ -144,7 +154,7 @@ def run(ctx, rep: Report, deep: bool = False):
         rep.families["roland-e2e"] = {"cases": len(cases), "disagreements": bad}
         if cases:
             rep.sample({"family": "roland-e2e", "op": cases[0].op, "result": cases[0].impl[:300]})
-    rep.required_features = ["images", "targeted", "head_not_lowest_chains", "windows_ending_on_cluster_boundary", "fat_version_2", "loop_mode_5", "loop_mode_6", "cluster_top_nonzero"]
+    rep.required_features = ["images", "targeted", "samples_sharing_a_data_file", "head_not_lowest_chains", "windows_ending_on_cluster_boundary", "fat_version_2", "loop_mode_5", "loop_mode_6", "cluster_top_nonzero"]
 
 
 def search(ctx, rep: Report):
